@@ -119,38 +119,53 @@ def r2(ctx, F, ip):
                 ctx.check(pure, 'C07.R2', 'load:%s' % c, 'reads exactly the `path` parameter',
                           'Archive::load reads a path other than the archive path itself (%s)' % sorted({'%s:%s' % (o.kind, o.key) for o in os_}),
                           term_loc(b, rb))
-            elif top == 'archive::Archive::save' and c == 'std::fs::File::open':
+            elif in_archive and c == 'std::fs::File::open' and (top == 'archive::Archive::save' or any(o.kind == 'call' and o.key == 'std::path::Path::parent' for o in os_)):
                 # the parent directory handle, used only for sync_all
                 via_parent = any(o.kind == 'call' and o.key == 'std::path::Path::parent' for o in os_)
-                ctx.check(via_parent, 'C07.R2', 'save:%s' % c, 'opens the parent directory (for fsync), not archive content',
-                          'Archive::save opens an archive-derived file for reading', term_loc(b, rb))
+                ctx.check(via_parent, 'C07.R2', '%s:%s' % (top.split('::')[-1], c), 'opens the parent directory (for fsync), not archive content',
+                          '%s opens an archive-derived file for reading' % top, term_loc(b, rb))
             else:
                 ctx.bad('C07.R2', '%s:%s' % (top, c), 'archive-derived path is read outside Archive::load (fallback to .bak/.tmp or a second reader)',
                         term_loc(b, rb))
-    # (b) callers of load
+    # (b) callers of load: whatever file is read, it is accepted only for THIS run's pair (R1: load compares the stored pair with
+    #     its second argument) - so that argument must be root_pair_hash(root_a, root_b) of run_bisync, directly or handed
+    #     down through functions of the archive module
     callers = cg.call_sites(lambda c: c == 'archive::Archive::load')
-    ctx.check(len(callers) == 1 and callers[0][0].path == 'bidir::run_bisync', 'C07.R2', 'load:single-caller',
-              'one caller: bidir::run_bisync', 'Archive::load has callers %s (expected exactly bidir::run_bisync)' % sorted(b.path for b, _, _ in callers),
-              None)
+    ctx.check(bool(callers) and all(b.path.split('::{')[0] == 'bidir::run_bisync' or b.path.startswith('archive::') for b, _, _ in callers), 'C07.R2', 'load:callers',
+              'Archive::load is called from run_bisync and the archive module only',
+              'Archive::load has callers %s (expected run_bisync or functions of the archive module)' % sorted({b.path for b, _, _ in callers}), None)
+
+    def pair_ok(b, op, depth=0):
+        """the operand is this run's pair hash"""
+        fl = flow_of(b)
+        os_ = [o for o in fl.origins(op) if o.kind != 'comb']
+        if not os_ or depth > 3:
+            return False
+        for o in os_:
+            if o.kind == 'call' and o.key == 'archive::root_pair_hash':
+                a0 = call_arg_origins(fl, o.bb, 0)
+                a1 = call_arg_origins(fl, o.bb, 1)
+                if not (b.path.split('::{')[0] == 'bidir::run_bisync' and all(x.kind == 'param' and x.key == 1 for x in a0) and all(x.kind == 'param' and x.key == 2 for x in a1)):
+                    return False
+            elif o.kind == 'param' and b.path.startswith('archive::') and not [e for e in o.path if not e.startswith('@')]:
+                sites = cg.call_sites(lambda c, _p=b.path.split('::{')[0]: c == _p)
+                if not sites or not all(o.key - 1 < len(cb_.blocks[cbb]['term']['args']) and pair_ok(cb_, cb_.blocks[cbb]['term']['args'][o.key - 1], depth + 1) for cb_, cbb, _ in sites):
+                    return False
+            else:
+                return False
+        return True
     for b, bb, _ in callers:
         fl = flow_of(b)
         t = b.blocks[bb]['term']
-        o_path = fl.origins(t['args'][0])
-        o_pair = fl.origins(t['args'][1])
-        ok_path = bool(o_path) and all(o.kind == 'call' and o.key == 'archive::archive_path' for o in o_path)
-        ok_pair = bool(o_pair) and all(o.kind == 'call' and o.key == 'archive::root_pair_hash' for o in o_pair)
-        # root_pair_hash(root_a, root_b) of this run, and archive_path(&pair) of that pair
-        good = ok_path and ok_pair
-        if good:
-            for o in o_pair:
-                a0 = call_arg_origins(fl, o.bb, 0)
-                a1 = call_arg_origins(fl, o.bb, 1)
-                good = good and all(x.kind == 'param' and x.key == 1 for x in a0) and all(x.kind == 'param' and x.key == 2 for x in a1)
+        good = pair_ok(b, t['args'][1])
+        if good and b.path.split('::{')[0] == 'bidir::run_bisync':
+            o_path = fl.origins(t['args'][0])
+            good = bool(o_path) and all(o.kind == 'call' and o.key == 'archive::archive_path' for o in o_path)
             for o in o_path:
                 a0 = call_arg_origins(fl, o.bb, 0)
                 good = good and all(x.kind == 'call' and x.key == 'archive::root_pair_hash' for x in a0)
-        ctx.check(good, 'C07.R2', 'run_bisync:load-args', 'load(archive_path(&pair), &pair) with pair = root_pair_hash(root_a, root_b)',
-                  'Archive::load is not called with this run\'s archive path and pair hash', term_loc(b, bb))
+        ctx.check(good, 'C07.R2', '%s:load-args' % b.path.split('::{')[0].split('::')[-1], 'load(.., &pair) with pair = root_pair_hash(root_a, root_b) of this run (and, in run_bisync, archive_path(&pair))',
+                  'Archive::load is not called with this run\'s pair hash (and archive path)', term_loc(b, bb))
 
 
 def r3(ctx, F, ip):
@@ -166,17 +181,17 @@ def r3(ctx, F, ip):
         ok = bool(o_trust) and all(o.kind == 'call' and o.key == 'std::option::Option::<T>::is_some' for o in o_trust)
         if ok:
             for o in o_trust:
-                a0 = call_arg_origins(fl, o.bb, 0)
-                ok = ok and bool(a0) and all(x.kind == 'call' and x.key == 'archive::Archive::load' for x in a0)
+                a0 = [x for x in call_arg_origins(fl, o.bb, 0) if x.kind != 'comb' and not _is_none(x)]
+                ok = ok and bool(a0) and all(_archive_source(F, x) for x in a0)
         ctx.check(ok, 'C07.R3', 'run_bisync:trust_base', 'trust_base == Archive::load(..).is_some(), passed unchanged',
                   'the trust flag given to reconcile is not exactly loaded.is_some(): %s' % sorted({'%s:%s' % (o.kind, o.key) for o in o_trust}),
                   term_loc(b, cb))
         o_base = fl.origins(ct['args'][2])
         allowed = lambda o: (o.kind == 'call' and o.key in ('archive::Archive::load', 'std::collections::BTreeMap::<K, V>::new',
-                                                              'std::default::Default::default')) \
+                                                              'std::default::Default::default')) or _is_none(o) or _archive_source(F, o) \
             or o.kind == 'comb' or (o.kind == 'const' and isinstance(o.key, str) and o.key.startswith('fn:std::collections::BTreeMap')) \
             or (o.kind == 'agg' and str(o.key).startswith('bidir::run_bisync::{closure'))
-        has_load = any(o.kind == 'call' and o.key == 'archive::Archive::load' for o in o_base)
+        has_load = any(_archive_source(F, o) for o in o_base)
         bad = sorted({'%s:%s' % (o.kind, o.key) for o in o_base if not allowed(o)})
         # closures used to build base may only project the loaded archive
         for o in o_base:
@@ -189,6 +204,27 @@ def r3(ctx, F, ip):
                             bad.append('closure:%s' % x.key)
         ctx.check(has_load and not bad, 'C07.R3', 'run_bisync:base', 'base derives only from the loaded archive or an empty map',
                   'the base map given to reconcile has other sources: %s' % bad, term_loc(b, cb))
+
+
+def _is_none(o):
+    # None itself, the `?` of an Option (hands on None), and the Some(..) wrapper whose payload is listed separately
+    return (o.kind == 'agg' and str(o.key).endswith(('option::Option::None', 'option::Option::Some'))) or \
+        (o.kind == 'call' and o.key == 'std::ops::FromResidual::from_residual')
+
+
+def _archive_source(F, o, depth=0):
+    """the value is what Archive::load returned - directly, or through a function of the archive module that hands on nothing
+    but results of Archive::load (a read-only recovery path: `interrupted_save` -> load(<sibling>, expected_pair))"""
+    if o.kind != 'call':
+        return False
+    if o.key == 'archive::Archive::load':
+        return True
+    hb = F.body(str(o.key)) if depth < 3 else None
+    if hb is None or not str(o.key).startswith('archive::'):
+        return False
+    ro = [x for x in flow_of(hb).origins(0) if x.kind not in ('comb', 'const') and not _is_none(x) and not (x.kind == 'agg' and str(x.key).endswith('option::Option::Some'))
+          and not (x.kind == 'agg' and '::{closure' in str(x.key))]
+    return bool(ro) and all(_archive_source(F, x, depth + 1) for x in ro)
 
 
 def r4(ctx, F):
@@ -356,3 +392,108 @@ def r7(ctx, F):
                   'through one spelling (a re-pointed symlink, a remounted path) share an archive, and the foreign base licenses deletes', term_loc(b, ub))
     if n < 2:
         ctx.missing('C07.R7', 'root_pair_hash: two hashed roots (found %d)' % n)
+    roots_exist(ctx, F)
+
+
+def roots_exist(ctx, F):
+    """canonicalize resolves only what exists (root_pair_hash falls back to the path as typed otherwise): an archive may be
+    loaded under a pair key only where both roots are known to exist - behind the Ok edge of a scan of the root, or the true /
+    Ok edge of an existence test of it (exists, metadata, canonicalize).  A root that can reach the load unproven makes
+    `bisync /data mirror` from two working directories trust one archive."""
+    b = work_body(F, 'bidir::run_bisync', ['archive::root_pair_hash'])
+    if b is None:
+        return
+    fl = flow_of(b)
+    loads = fl.calls_to('archive::Archive::load')
+    keys = fl.calls_to('archive::root_pair_hash')
+    if not loads or not keys:
+        return
+    EXIST_OK = ('meta::discover_local_fingerprints', 'std::fs::symlink_metadata', 'std::fs::metadata', 'std::fs::canonicalize', 'std::fs::read_dir')
+    for kb, kt in keys:
+        for ai in (0, 1):
+            ao = [o for o in fl.origins(kt['args'][ai]) if o.kind != 'comb']
+            if not ao or not all(o.kind == 'param' and not [e for e in o.path if not e.startswith('@')] for o in ao):
+                ctx.undecided('C07.R7', 'run_bisync hands root_pair_hash a derived value for root %d: whether it identifies the directory is not decided' % (ai + 1))
+                continue
+            slots = {o.key for o in ao}
+            ev = []      # edge sets that prove the root exists
+            for sb, st in fl.calls(lambda c: c in EXIST_OK or c == 'std::path::Path::exists' or c == 'std::path::Path::is_dir' or c == 'std::path::Path::try_exists'):
+                if not st['args'] or {o.key for o in fl.origins(st['args'][0]) if o.kind == 'param'} != slots:
+                    continue
+                oc = fl.outcomes(sb)
+                e = oc.get('Ok') or oc.get('true')
+                if e:
+                    ev.append(e)
+            for lb, lt in loads:
+                ok = any(fl.cfg.edges_guard(e, lb) for e in ev) or _flag_implies(fl, lb, ev)
+                ctx.check(ok, 'C07.R7', 'run_bisync:archive-loaded-for-existing-root#%d' % (ai + 1), 'Archive::load is reachable only where this root was scanned or shown to exist',
+                          'run_bisync loads (and may trust) an archive under a pair key computed from a root that is not known to exist (such a root is not '
+                          'canonicalized: the key is the path as typed, and the same spelling from another working directory finds a foreign archive that licenses deletes)',
+                          term_loc(b, lb))
+
+
+def _flag_implies(fl, target, evidence):
+    """`let seeding = !a.exists() || !b.exists(); if seeding { None } else { load }`: the target sits behind an edge of a switch
+    on a bool local; every definition of that local that can produce the value of that edge is itself behind one of the
+    `evidence` edge sets (or IS the negation / copy of the tested call whose outcome the evidence is)."""
+    b = fl.body
+    cfg = fl.cfg
+    ev_calls = {}       # block of the existence call -> the value of its result on the evidence edge
+    for e in evidence:
+        for (s_, t_, lab) in e:
+            ev_calls[s_] = lab
+    for sb in cfg.reachable():
+        t = b.blocks[sb]['term']
+        if t['k'] != 'switch' or t['on']['k'] == 'const' or t['on']['p']['proj'] or b.local_ty(t['on']['p']['l']) != 'bool':
+            continue
+        v = t['on']['p']['l']
+        for val in (0, 1):
+            tgt = dict((tv, tb) for tv, tb in t['targets']).get(val, t['otherwise'])
+            if not cfg.edges_guard({(sb, tgt, val)}, target) and not cfg.edges_guard({(sb, tgt, 'otherwise')}, target):
+                continue
+            if _defs_imply(fl, v, val, evidence, 0):
+                return True
+    return False
+
+
+def _defs_imply(fl, v, val, evidence, depth):
+    if depth > 4:
+        return False
+    b = fl.body
+    cfg = fl.cfg
+    ds = fl.defs.get(v, [])
+    if not ds:
+        return False
+    for (bb, idx, kind, data, dproj) in ds:
+        if dproj:
+            return False
+        behind = any(cfg.edges_guard(e, bb) for e in evidence)
+        if kind == 'call':
+            # the tested call itself: its own outcome edge is the evidence when val is the proving value
+            oc = fl.outcomes(bb)
+            e = oc.get('true') if val else None
+            if e and any(e == x or e <= x for x in evidence):
+                continue
+            if behind:
+                continue
+            return False
+        rv = data
+        if rv['k'] == 'use' and rv['ops'][0]['k'] == 'const':
+            c = rv['ops'][0].get('v')
+            if c in (0, 1, True, False) and int(bool(c)) != val:
+                continue        # this definition cannot produce the value
+            if behind:
+                continue
+            return False
+        if rv['k'] == 'un' and rv['op'] == 'Not' and rv['ops'][0]['k'] != 'const' and not rv['ops'][0]['p']['proj']:
+            if behind or _defs_imply(fl, rv['ops'][0]['p']['l'], 1 - val, evidence, depth + 1):
+                continue
+            return False
+        if rv['k'] == 'use' and rv['ops'][0]['k'] != 'const' and not rv['ops'][0]['p']['proj']:
+            if behind or _defs_imply(fl, rv['ops'][0]['p']['l'], val, evidence, depth + 1):
+                continue
+            return False
+        if behind:
+            continue
+        return False
+    return True
